@@ -343,8 +343,12 @@ func makeVaryHash(vary map[string]string) uint64 {
 	keys = slices.AppendSeq(keys, maps.Keys(vary))
 	slices.Sort(keys)
 	for _, k := range keys {
+		// NUL cannot occur in field names or values: it keeps {"A":"1","B":"2"}
+		// and {"A":"1B2"} from hashing alike.
 		_, _ = h.Write([]byte(k))
+		_, _ = h.Write([]byte{0})
 		_, _ = h.Write([]byte(vary[k]))
+		_, _ = h.Write([]byte{0})
 	}
 	return h.Sum64()
 }
